@@ -249,7 +249,7 @@ pub fn parse<'input>(
         s.advance(3);
     }
 
-    if s.starts_with(b"<?xml ") {
+    if s.starts_with_declaration() {
         parse_declaration(s)?;
     }
 
@@ -930,6 +930,12 @@ impl<'input> Stream<'input> {
         while self.starts_with_space() {
             self.advance(1);
         }
+    }
+
+    // Checks for `<?xml` followed by a whitespace.
+    fn starts_with_declaration(&self) -> bool {
+        self.starts_with(b"<?xml")
+            && self.as_bytes().get(5).map_or(false, |b| b.is_xml_space())
     }
 
     #[inline]
